@@ -165,6 +165,14 @@ func (h *fwdHooks) EvalValue(c *engine.Ctx, v ssa.Value, ops []engine.AbsVal) (e
 				return str(""), true
 			}
 		}
+		// enc[:utf8.EncodeRune(enc[:], r)]: the encoding of r
+		if hc, ok := x.High.(*ssa.Call); ok && isBytes(x.Type()) {
+			if g := hc.Common().StaticCallee(); g != nil && g.String() == "unicode/utf8.EncodeRune" {
+				if dst, ok := hc.Common().Args[0].(*ssa.Slice); ok && dst.X == x.X {
+					return str(runeTok(c.Eval(hc.Common().Args[1]))), true
+				}
+			}
+		}
 		// text[:] / text[0:] keep the text
 		if s, ok := constStr(ops[0]); ok && x.Low == nil && x.High == nil {
 			return str(s), true
